@@ -444,11 +444,11 @@ fn main() {
     quiet_panics();
     let mut r = Rng::new(a.seed, 12);
     let mut o = Out::default();
-    let n_req = a.budget(350, 40_000);
-    let n_prop = a.budget(40, 6_000);
-    let n_amt = a.budget(150, 30_000);
-    let n_memo = a.budget(60, 3_000);
-    let n_rand = a.budget(100, 5_000);
+    let n_req = a.budget(350, 5_000);
+    let n_prop = a.budget(40, 500);
+    let n_amt = a.budget(150, 6_000);
+    let n_memo = a.budget(60, 600);
+    let n_rand = a.budget(100, 1_500);
 
     // address pool: every kind on every network, from the crate's own strategy driven by our PRNG
     let seed: [u8; 32] = r.bytes(32).try_into().unwrap();
